@@ -12,7 +12,7 @@ cd $WT
 DEMO=$(git status --short | grep '^??' | grep '_test.go' | awk '{print $2}' | head -1)
 PKG=./$(dirname $DEMO)
 echo "demo file: $DEMO pkg: $PKG"
-RUN=$(grep -o 'func Test[A-Za-z0-9_]*' $DEMO | head -1 | sed 's/func //')
+RUN=$(grep -o 'func Test[A-Za-z0-9_]*' $DEMO | sed 's/func //' | paste -sd'|')
 echo "== demo WITH change"; go test -vet=off -count=1 -run "$RUN" $PKG > $D/demo_with.log 2>&1; W=$?; tail -3 $D/demo_with.log
 git stash -q
 echo "== demo WITHOUT change"; go test -vet=off -count=1 -run "$RUN" $PKG > $D/demo_without.log 2>&1; WO=$?; tail -3 $D/demo_without.log
